@@ -80,8 +80,10 @@ Failures(r) ==
       UNION { { <<j, k>> : j \in NodeJudges(r.nodes[k]) } : k \in { k \in 1..Len(r.nodes) : r.nodes[k].exec } }
       \cup (IF r.cmp = 1 /\ r.onames # r.rnames THEN { <<"SameColumns", 0>> } ELSE {})
       \cup (IF r.cmp = 1 /\ ~BagEq(NormRows(r.orig), NormRows(r.rend)) THEN { <<"SameRows", 0>> } ELSE {})
-      \cup (IF r.cmp = 1 /\ r.okeys # << >> /\ ~Sorted(r.rend, r.okeys) THEN { <<"SameOrder", 0>> } ELSE {})
-      \cup (IF r.cmp = 1 /\ r.okeys # << >> /\ r.total /\ NormRows(r.orig) # NormRows(r.rend) THEN { <<"SameSequence", 0>> } ELSE {})
+      \cup (IF r.cmp = 1 /\ r.okeys # << >> /\ BagEq(NormRows(r.orig), NormRows(r.rend)) /\ ~Sorted(r.rend, r.okeys) THEN { <<"SameOrder", 0>> } ELSE {})
+      \* (only when the bags agree: otherwise SameRows already says it)
+      \cup (IF r.cmp = 1 /\ r.okeys # << >> /\ r.total /\ BagEq(NormRows(r.orig), NormRows(r.rend)) /\ NormRows(r.orig) # NormRows(r.rend)
+            THEN { <<"SameSequence", 0>> } ELSE {})
       \cup (IF r.re = 1 /\ (~r.re_schema \/ r.root_names # r.re_names \/ r.root_cols # r.re_cols) THEN { <<"ReparseSchema", 0>> } ELSE {})
       \cup (IF r.re = 1 /\ r.cmp = 1 /\ ~BagEq(NormRows(r.rend2), NormRows(r.rend)) THEN { <<"ReparseRows", 0>> } ELSE {})
 
